@@ -30,7 +30,8 @@ def run(ctx):
              "any other numbered line is inserted; direct lines never touch the store")
     ctx.rule("C15.c", "ranges are inclusive end to end: r#delete and r#list build RangeInclusive, "
              "remove_range and State::Listing carry that type")
-    ctx.rule("C15.d", "guards: bare DELETE is rejected before remove_range; an inverted range is "
+    ctx.rule("C15.d", "guards: a DELETE without operands is rejected by the code generator (empty "
+             "operand columns) and Runtime::delete has no value sentinel; an inverted range is "
              "rejected by the parser before it returns Ok; every comparison against "
              "LineNumber::max_value() has its reviewed operator and 65529/65530 occur only there")
     ctx.rule("C15.e", "list_line: a line below the range end moves the start to num+1, the last "
@@ -125,21 +126,40 @@ def rule_c(ctx, cr):
 
 
 def rule_d(ctx, cr):
+    # a bare DELETE is recognised where the information exists - by the absence of operands
+    # (zero-width columns), in the code generator - not by the default VALUES 0..65529, which an
+    # explicit `DELETE 0-` or `DELETE -65529` has too
+    g = cr.need_fn("mach::codegen::Generator::delete")
+    ctx.touch(g)
+    errs = [b for b, c, _s in g.error_codes() if c == "IllegalFunctionCall"]
+    emit = [c for c in g.calls_to("mach::link::Link::push")]
+    both_empty = False
+    ise = g.calls_matching(r"Range::<Idx>::is_empty$")
+    for b in errs:
+        holds = any(c[0] == "eq" and "::is_empty" in str(c[1]) and c[2] is True
+                    for c in g.conds_at(b))
+        # two distinct is_empty() tests (from-column and to-column) dominate the rejection
+        if holds and len([c for c in ise if g.dominates(c.bb, b)]) >= 2:
+            both_empty = True
+    ok = both_empty and bool(emit) and not any(g.can_reach(c.bb, b) for c in emit for b in errs)
+    ctx.check(ok, "C15.d", "delete/bare-delete-rejected", g.span,
+              "DELETE with no operand at all is an ILLEGAL FUNCTION CALL, raised before anything "
+              "is emitted",
+              "a bare DELETE (both operand columns empty) is no longer rejected by the code "
+              "generator: it would delete the whole program")
     d = cr.need_fn("mach::runtime::Runtime::delete")
+    ctx.touch(d)
     rr = d.calls_to("mach::listing::Listing::remove_range")
-    codes = [(b, c) for b, c, _s in d.error_codes()]
-    ok = len(rr) == 1 and any(c == "IllegalFunctionCall" for _b, c in codes)
-    if ok:
-        eqs = [f2 for f2 in d.calls() if "PartialEq" in (f2.callee or "") and f2.bb != rr[0].bb
-               and d.dominates(f2.bb, rr[0].bb)]
-        ok = len(eqs) >= 1
-        zero = any(d.const_of_operand(o) == 0 for b, i, st in d.assigns()
-                   for o in rvalue_operands(st["rv"]))
-        mx = bool(d.calls_to(MAXV))
-        ok = ok and zero and mx
-    ctx.check(ok, "C15.d", "delete/bare-delete-rejected", d.span,
-              "from == 0 && to == max is ILLEGAL FUNCTION CALL, tested before remove_range",
-              "a bare DELETE is no longer rejected before the store is touched")
+    sentinel = [st["span"]["line"] for b, i, st in d.assigns()
+                if st["rv"]["k"] == "binop" and st["rv"]["op"] in ("Eq", "Ne")] + \
+               [c.span["line"] for c in d.calls() if "PartialEq" in (c.callee or "")]
+    ctx.check(len(rr) == 1 and not sentinel and not list(d.error_codes()), "C15.d",
+              "delete/no-value-sentinel", d.span,
+              "every parsed range reaches remove_range: the bounds are not compared with "
+              "sentinel values",
+              "Runtime::delete compares its bounds with fixed values (lines %s): an explicit range "
+              "that happens to equal them (`DELETE 0-`, `DELETE -65529`) is treated as something "
+              "else than the lines it names" % sentinel)
     p = cr.need_fn("lang::parse::BasicParser<'a>::expect_line_number_range")
     ctx.touch(p)
     inv = False
